@@ -12,6 +12,7 @@ mod rng;
 
 mod c01;
 mod c02;
+mod c03;
 mod c04;
 mod c05;
 mod c06;
@@ -47,6 +48,7 @@ fn build(id: &str, ctx: &Ctx) -> Option<Property> {
         }
         "C01" => c01::build(ctx),
         "C02" => c02::build(ctx),
+        "C03" => c03::build(ctx),
         "C04" => c04::build(ctx),
         "C05" => c05::build(ctx),
         "C06" => c06::build(ctx),
